@@ -42,8 +42,35 @@ def main():
             ctx.driver = leanio.Driver()       # a check may have pointed ctx.driver at a private copy it has removed again
             pyrt.check_functions(ctx, leanio.BRIDGE_FUNCS[prop], ctx.n(60, 1500))
         return ctx.finish(search=getattr(mod, "search", None))
-    except Exception:
+    except Exception as e:
         traceback.print_exc()
+        # A crash INSIDE /repo's code (or on its objects) while a correspondence was being evaluated means that correspondence no
+        # longer checks on this tree — the harness met code of a shape it does not know. That is reported like any other broken
+        # correspondence for which no failing input was found (it cannot happen on the tree the harness was validated on);
+        # anything else (scratch space, ports, the Lean toolchain) is an infrastructure error.
+        repo_root = os.path.realpath(os.environ.get("VERIF_REPO", "/repo"))
+        frames = traceback.extract_tb(e.__traceback__)
+        in_repo = [f for f in frames if os.path.realpath(f.filename).startswith(repo_root + os.sep)]
+        about_repo = in_repo or (isinstance(e, (ImportError, AttributeError)) and "gapic" in str(e))
+        if about_repo and not a.replay:
+            try:
+                rel = os.path.join("replays", prop, "crash_" + str(abs(hash(traceback.format_exc())) % 10**10) + ".json")
+                os.makedirs(os.path.join(common.ROOT, "replays", prop), exist_ok=True)
+                with open(os.path.join(common.ROOT, rel), "w") as fh:
+                    json.dump({"property": prop, "broken_obligations": [], "disagreements": [
+                        {"correspondence": "harness-vs-/repo (the correspondence being evaluated crashed inside /repo's code)",
+                         "what": f"{type(e).__name__}: {e}", "where": [f"{f.filename}:{f.lineno} in {f.name}" for f in (in_repo or frames)[-3:]],
+                         "traceback": traceback.format_exc()[-3000:]}]}, fh, indent=1)
+                try:
+                    ctx.notes["harness_crash_inside_repo_code"] = f"{type(e).__name__}: {str(e)[:300]}"
+                    ctx.write_evidence(1)
+                except Exception:
+                    pass
+                print(f"broken correspondence: the harness crashed inside /repo's code: {type(e).__name__}: {str(e)[:200]}")
+                print(f"VIOLATION property={prop} replay={rel} no-failing-input-found")
+                return 1
+            except Exception:
+                traceback.print_exc()
         print("infrastructure error (exit 2)")
         return 2
 
